@@ -686,4 +686,374 @@ theorem dnf_form_printable {r : M} (hc : r.isDnf = true) (hl : M.Good Leaf.Print
     intro m hm
     exact cube_printable (hc.2 m hm) ((M.good_union cs).1 hl m hm)
 
+/-! ### results of `intersect` / `union` are printable -/
+
+/-- Any, Empty, or a marker with a text -/
+def M.PrintableE (m : M) : Prop := m.isAny = true ∨ m.isEmpty = true ∨ (M.toSyn m).isSome = true
+
+theorem toSynMulti_mem : ∀ (ms : List M), (M.toSynMulti ms).isSome = true →
+    ms ≠ [] ∧ ∀ m ∈ ms, (M.toSyn m).isSome = true
+  | [], h => by simp [M.toSynMulti] at h
+  | [m], h => by
+      simp only [M.toSynMulti] at h
+      cases hm : M.toSyn m <;> simp_all
+  | m :: m' :: ms, h => by
+      rw [toSynMulti_cons2] at h
+      cases hm : M.toSyn m with
+      | none => simp [hm] at h
+      | some t =>
+        cases hr : M.toSynMulti (m' :: ms) with
+        | none => simp [hm, hr] at h
+        | some r =>
+          have := toSynMulti_mem (m' :: ms) (by simp [hr])
+          refine ⟨by simp, ?_⟩
+          intro x hx; simp only [List.mem_cons] at hx
+          rcases hx with rfl | hx
+          · simp [hm]
+          · exact this.2 x (by simpa using hx)
+
+theorem toSynUnion_mem : ∀ (ms : List M), (M.toSynUnion ms).isSome = true →
+    ms ≠ [] ∧ ∀ m ∈ ms, (M.toSyn m).isSome = true
+  | [], h => by simp [M.toSynUnion] at h
+  | [m], h => by
+      simp only [M.toSynUnion] at h
+      cases hm : M.toSyn m <;> simp_all
+  | m :: m' :: ms, h => by
+      rw [toSynUnion_cons2] at h
+      cases hm : M.toSyn m with
+      | none => simp [hm] at h
+      | some t =>
+        cases hr : M.toSynUnion (m' :: ms) with
+        | none => simp [hm, hr] at h
+        | some r =>
+          have := toSynUnion_mem (m' :: ms) (by simp [hr])
+          refine ⟨by simp, ?_⟩
+          intro x hx; simp only [List.mem_cons] at hx
+          rcases hx with rfl | hx
+          · simp [hm]
+          · exact this.2 x (by simpa using hx)
+
+theorem appendNew_len_ge (ms : List M) : ∀ (acc : List M), acc.length ≤ (appendNew acc ms).length ∧
+    (ms ≠ [] → appendNew acc ms ≠ []) := by
+  induction ms with
+  | nil => intro acc; simp [appendNew]
+  | cons m ms ih =>
+    intro acc
+    simp only [appendNew, List.foldl_cons]
+    have h1 := (ih (if M.mem m acc = true then acc else acc ++ [m])).1
+    simp only [appendNew] at h1
+    have hlen : acc.length ≤ (if M.mem m acc = true then acc else acc ++ [m]).length := by split <;> simp
+    have hpos : 0 < (if M.mem m acc = true then acc else acc ++ [m]).length := by
+      split
+      · rename_i hmem
+        cases acc with
+        | nil => simp [M.mem] at hmem
+        | cons a l => simp
+      · simp
+    refine ⟨Nat.le_trans hlen h1, fun _ hnil => ?_⟩
+    rw [hnil] at h1; simp only [List.length_nil] at h1; omega
+
+/-- flattening keeps a property that passes from a compound to its members, and keeps the list non-empty -/
+theorem flattenAux_closed (b : Bool) (Q : M → Prop)
+    (hQ : ∀ inner, Q (if b then .multi inner else .union inner) → inner ≠ [] ∧ ∀ x ∈ inner, Q x)
+    (ms acc : List M) : (∀ x ∈ ms, Q x) → (∀ x ∈ acc, Q x) →
+    (∀ x ∈ flattenAux b ms acc, Q x) ∧ acc.length ≤ (flattenAux b ms acc).length ∧
+    (ms ≠ [] → flattenAux b ms acc ≠ []) := by
+  induction ms, acc using flattenAux.induct b with
+  | case1 acc => intro _ ha; rw [flattenAux.eq_def]; simpa using ha
+  | case2 rest acc inner hb ih1 ih2 =>
+    intro hm ha
+    subst hb
+    rw [flattenAux.eq_def]
+    simp only
+    have hin := hQ inner (by simpa using hm (.multi inner) (by simp))
+    have h1 := ih1 hin.2 (by simp)
+    have hne1 : flattenAux true inner [] ≠ [] := h1.2.2 hin.1
+    have hQa : ∀ x ∈ appendNew acc (flattenAux true inner []), Q x := by
+      intro x hx
+      rcases appendNew_mem _ _ hx with h | h
+      · exact ha x h
+      · exact h1.1 x h
+    have h2 := ih2 (fun x hx => hm x (by simp [hx])) hQa
+    have h3 := appendNew_len_ge (flattenAux true inner []) acc
+    refine ⟨h2.1, Nat.le_trans h3.1 h2.2.1, fun _ hnil => ?_⟩
+    have := h2.2.1; rw [hnil] at this
+    have h4 := h3.2 hne1
+    simp only [List.length_nil, Nat.le_zero, List.length_eq_zero_iff] at this
+    exact h4 this
+  | case3 rest acc inner hb ih1 ih2 =>
+    intro hm ha
+    subst hb
+    rw [flattenAux.eq_def]
+    simp only
+    have hin := hQ inner (by simpa using hm (.union inner) (by simp))
+    have h1 := ih1 hin.2 (by simp)
+    have hne1 : flattenAux false inner [] ≠ [] := h1.2.2 hin.1
+    have hQa : ∀ x ∈ appendNew acc (flattenAux false inner []), Q x := by
+      intro x hx
+      rcases appendNew_mem _ _ hx with h | h
+      · exact ha x h
+      · exact h1.1 x h
+    have h2 := ih2 (fun x hx => hm x (by simp [hx])) hQa
+    have h3 := appendNew_len_ge (flattenAux false inner []) acc
+    refine ⟨h2.1, Nat.le_trans h3.1 h2.2.1, fun _ hnil => ?_⟩
+    have := h2.2.1; rw [hnil] at this
+    have h4 := h3.2 hne1
+    simp only [List.length_nil, Nat.le_zero, List.length_eq_zero_iff] at this
+    exact h4 this
+  | case4 rest acc m hn1 hn2 ih =>
+    intro hm ha
+    have e : flattenAux b (m :: rest) acc = flattenAux b rest (if M.mem m acc = true then acc else acc ++ [m]) := by
+      rw [flattenAux.eq_def]
+      cases b <;> cases m <;> first | rfl | (exact absurd rfl (fun h => hn1 _ h rfl)) | (exact absurd rfl (fun h => hn2 _ h rfl))
+    rw [e]
+    simp only [dite_eq_ite] at ih
+    have hQa : ∀ x ∈ (if M.mem m acc = true then acc else acc ++ [m]), Q x := by
+      intro x hx
+      rcases appendOne_mem hx with h | rfl
+      · exact ha x h
+      · exact hm x (by simp)
+    have h2 := ih (fun x hx => hm x (by simp [hx])) hQa
+    have hlen : acc.length ≤ (if M.mem m acc = true then acc else acc ++ [m]).length := by split <;> simp
+    have hpos : 0 < (if M.mem m acc = true then acc else acc ++ [m]).length := by
+      split
+      · rename_i hmem
+        cases acc with
+        | nil => simp [M.mem] at hmem
+        | cons a l => simp
+      · simp
+    refine ⟨h2.1, Nat.le_trans hlen h2.2.1, fun _ hnil => ?_⟩
+    have := h2.2.1; rw [hnil] at this; simp only [List.length_nil] at this; omega
+
+theorem mkMulti_printable {ms : List M} (hne : ms ≠ []) (h : ∀ m ∈ ms, (M.toSyn m).isSome = true) :
+    (M.toSyn (mkMulti ms)).isSome = true := by
+  have := flattenAux_closed true (fun m => (M.toSyn m).isSome = true)
+    (fun inner hq => toSynMulti_mem inner (by simpa [M.toSyn] using hq)) ms [] h (by simp)
+  simp only [mkMulti, flattenMarkers, M.toSyn]
+  exact toSynMulti_some _ (this.2.2 hne) this.1
+
+theorem mkUnion_printable {ms : List M} (hne : ms ≠ []) (h : ∀ m ∈ ms, (M.toSyn m).isSome = true) :
+    (M.toSyn (mkUnion ms)).isSome = true := by
+  have := flattenAux_closed false (fun m => (M.toSyn m).isSome = true)
+    (fun inner hq => toSynUnion_mem inner (by simpa [M.toSyn] using hq)) ms [] h (by simp)
+  simp only [mkUnion, flattenMarkers, M.toSyn]
+  exact toSynUnion_some _ (this.2.2 hne) this.1
+
+theorem unwrapSingleton_printable (k : Nat) (m : M) (h : (M.toSyn m).isSome = true) :
+    (M.toSyn (unwrapSingleton k m)).isSome = true := by
+  induction k, m using unwrapSingleton.induct with
+  | case1 m => simpa [unwrapSingleton] using h
+  | case2 d x ih =>
+    simp only [unwrapSingleton]
+    exact ih ((toSynMulti_mem [x] (by simpa [M.toSyn] using h)).2 x (by simp))
+  | case3 d x ih =>
+    simp only [unwrapSingleton]
+    exact ih ((toSynUnion_mem [x] (by simpa [M.toSyn] using h)).2 x (by simp))
+  | case4 d m h1 h2 =>
+    rw [unwrapSingleton]
+    · exact h
+    · exact h1
+    · exact h2
+
+theorem printable_not_any {m : M} (h : (M.toSyn m).isSome = true) : m.isAny = false ∧ m.isEmpty = false := by
+  cases m <;> simp_all [M.toSyn, M.isAny, M.isEmpty]
+
+theorem printableE_of_cnf {r : M} (hc : r.isCnf = true) (hl : M.Good Leaf.Printable r) : r.PrintableE := by
+  by_cases ha : r.isAny = true
+  · exact Or.inl ha
+  by_cases he : r.isEmpty = true
+  · exact Or.inr (Or.inl he)
+  exact Or.inr (Or.inr (cnf_form_printable hc hl (by simpa using ha) (by simpa using he)))
+
+theorem printableE_of_dnf {r : M} (hc : r.isDnf = true) (hl : M.Good Leaf.Printable r) : r.PrintableE := by
+  by_cases ha : r.isAny = true
+  · exact Or.inl ha
+  by_cases he : r.isEmpty = true
+  · exact Or.inr (Or.inl he)
+  exact Or.inr (Or.inr (dnf_form_printable hc hl (by simpa using ha) (by simpa using he)))
+
+theorem filter_printable_notAny {ms : List M} (h : ∀ m ∈ ms, (M.toSyn m).isSome = true) :
+    ms.filter (fun m => !m.isAny) = ms := by
+  apply List.filter_eq_self.2
+  intro m hm; simp [(printable_not_any (h m hm)).1]
+
+theorem filter_printable_notEmpty {ms : List M} (h : ∀ m ∈ ms, (M.toSyn m).isSome = true) :
+    ms.filter (fun m => !m.isEmpty) = ms := by
+  apply List.filter_eq_self.2
+  intro m hm; simp [(printable_not_any (h m hm)).2]
+
+/-- `intersection(*markers)` of printable markers over printable leaves is Any, Empty or printable -/
+theorem intersectionF_printable (S : LeafSpec ev G) (hP : ∀ l, G l → Leaf.Printable l) {n : Nat} {stk : Stack}
+    {ms : List M} {r : M} (hne : ms ≠ []) (hg : ∀ x ∈ ms, M.Good G x)
+    (hp : ∀ m ∈ ms, (M.toSyn m).isSome = true) (h : intersectionF n stk ms = .ok r) : r.PrintableE := by
+  rw [intersectionF.eq_def] at h
+  cases n with
+  | zero => cases h
+  | succ n =>
+    simp only at h
+    by_cases hs : Stack.has stk false ms = true
+    · simp [hs] at h
+    · simp only [hs, if_false, Bool.false_eq_true] at h
+      rw [filter_printable_notAny hp] at h
+      have hUg := (unwrapSingleton_spec (ev := ev) (G := G) (ms.length + 2) _ (mkMulti_spec (ev := ev) S ms hg).1).1
+      have hUp := unwrapSingleton_printable (ms.length + 2) _ (mkMulti_printable hne hp)
+      generalize unwrapSingleton (ms.length + 2) (mkMulti ms) = U at h hUg hUp
+      cases hd : dnf n ((false, ms) :: stk) U with
+      | error e => simp [hd] at h
+      | ok d =>
+        simp only [hd] at h
+        have hdg := (dnf_sound S hUg hd).1
+        have hdP : d.PrintableE := printableE_of_dnf (dnf_isDnf hd) (M.good_mono hP d hdg)
+        have hUP : U.PrintableE := Or.inr (Or.inr hUp)
+        split at h
+        · rename_i us
+          cases hc : cnf n ((false, ms) :: stk) (M.union us) with
+          | error e =>
+            simp only [hc] at h
+            cases e <;> simp only at h <;> first
+              | exact min_pick (cs := [_, _]) (P := M.PrintableE) h
+                  (by intro c hc'; simp only [List.mem_cons, List.not_mem_nil, or_false] at hc'
+                      rcases hc' with rfl | rfl <;> assumption)
+              | cases h
+          | ok c =>
+            simp only [hc] at h
+            have hcg := (cnf_sound S hdg hc).1
+            have hcP : c.PrintableE := printableE_of_cnf (cnf_isCnf hc) (M.good_mono hP c hcg)
+            split at h
+            · exact min_pick (cs := [_, _, _]) (P := M.PrintableE) h
+                (by intro c' hc'; simp only [List.mem_cons, List.not_mem_nil, or_false] at hc'
+                    rcases hc' with rfl | rfl | rfl <;> assumption)
+            · cases h; exact hcP
+        · cases h; exact hdP
+
+theorem unionF_printable (S : LeafSpec ev G) (hP : ∀ l, G l → Leaf.Printable l) {n : Nat} {stk : Stack}
+    {ms : List M} {r : M} (hne : ms ≠ []) (hg : ∀ x ∈ ms, M.Good G x)
+    (hp : ∀ m ∈ ms, (M.toSyn m).isSome = true) (h : unionF n stk ms = .ok r) : r.PrintableE := by
+  rw [unionF.eq_def] at h
+  cases n with
+  | zero => cases h
+  | succ n =>
+    simp only at h
+    by_cases hs : Stack.has stk true ms = true
+    · simp [hs] at h
+    · simp only [hs, if_false, Bool.false_eq_true] at h
+      rw [filter_printable_notEmpty hp] at h
+      have hUg := (unwrapSingleton_spec (ev := ev) (G := G) (ms.length + 2) _ (mkUnion_spec (ev := ev) S ms hg).1).1
+      have hUp := unwrapSingleton_printable (ms.length + 2) _ (mkUnion_printable hne hp)
+      generalize unwrapSingleton (ms.length + 2) (mkUnion ms) = U at h hUg hUp
+      cases hd : cnf n ((true, ms) :: stk) U with
+      | error e => simp [hd] at h
+      | ok d =>
+        simp only [hd] at h
+        have hdg := (cnf_sound S hUg hd).1
+        have hdP : d.PrintableE := printableE_of_cnf (cnf_isCnf hd) (M.good_mono hP d hdg)
+        have hUP : U.PrintableE := Or.inr (Or.inr hUp)
+        split at h
+        · rename_i us
+          cases hc : dnf n ((true, ms) :: stk) (M.multi us) with
+          | error e =>
+            simp only [hc] at h
+            cases e <;> simp only at h <;> first
+              | exact min_pick (cs := [_, _]) (P := M.PrintableE) h
+                  (by intro c hc'; simp only [List.mem_cons, List.not_mem_nil, or_false] at hc'
+                      rcases hc' with rfl | rfl <;> assumption)
+              | cases h
+          | ok c =>
+            simp only [hc] at h
+            have hcg := (dnf_sound S hdg hc).1
+            have hcP : c.PrintableE := printableE_of_dnf (dnf_isDnf hc) (M.good_mono hP c hcg)
+            split at h
+            · exact min_pick (cs := [_, _, _]) (P := M.PrintableE) h
+                (by intro c' hc'; simp only [List.mem_cons, List.not_mem_nil, or_false] at hc'
+                    rcases hc' with rfl | rfl | rfl <;> assumption)
+            · cases h; exact hcP
+        · cases h; exact hdP
+
+/-- **`a.intersect(b)` of printable markers is Any, Empty or printable** — every fuel, every stack -/
+theorem mIntersect_printable (S : LeafSpec ev G) (hP : ∀ l, G l → Leaf.Printable l) :
+    ∀ (n : Nat) (stk : Stack) (a b r : M), M.Good G a → M.Good G b → (M.toSyn a).isSome = true →
+    (M.toSyn b).isSome = true → mIntersect n stk a b = .ok r → r.PrintableE := by
+  intro n
+  induction n with
+  | zero => intro stk a b r _ _ _ _ h; rw [mIntersect.eq_def] at h; cases h
+  | succ n ih =>
+    intro stk a b r ha hb pa pb h
+    have hfin : ∀ x, x ∈ [a, b] → M.Good G x := by
+      intro x hx; simp at hx; rcases hx with rfl | rfl <;> assumption
+    have hfinp : ∀ x, x ∈ [a, b] → (M.toSyn x).isSome = true := by
+      intro x hx; simp at hx; rcases hx with rfl | rfl <;> assumption
+    rw [mIntersect.eq_def] at h
+    simp only at h
+    cases a with
+    | any => simp [M.toSyn] at pa
+    | empty => simp [M.toSyn] at pa
+    | leaf la =>
+      cases b with
+      | leaf lb =>
+        simp only at h
+        obtain ⟨o, h1, h2⟩ := bind_ok.1 h
+        cases o with
+        | some x =>
+          rw [pure_ok] at h2; subst h2
+          have hs := mergeLeaves_shape la lb true x h1
+          have hgx := (S.merge la lb true x (by simpa using ha) (by simpa using hb) h1).1
+          cases x with
+          | any => exact Or.inl rfl
+          | empty => exact Or.inr (Or.inl rfl)
+          | leaf l => exact Or.inr (Or.inr (by simpa [M.toSyn, Leaf.Printable] using hP l (by simpa using hgx)))
+          | multi _ => simp [M.isLitE] at hs
+          | union _ => simp [M.isLitE] at hs
+        | none =>
+          rw [pure_ok] at h2; subst h2
+          exact Or.inr (Or.inr (mkMulti_printable (by simp) hfinp))
+      | any => simp [M.toSyn] at pb
+      | empty => simp [M.toSyn] at pb
+      | multi _ => exact ih stk _ _ r hb ha pb pa h
+      | union _ => exact ih stk _ _ r hb ha pb pa h
+    | multi ms => exact intersectionF_printable S hP (by simp) hfin hfinp h
+    | union ms => exact intersectionF_printable S hP (by simp) hfin hfinp h
+
+theorem mUnion_printable (S : LeafSpec ev G) (hP : ∀ l, G l → Leaf.Printable l) :
+    ∀ (n : Nat) (stk : Stack) (a b r : M), M.Good G a → M.Good G b → (M.toSyn a).isSome = true →
+    (M.toSyn b).isSome = true → mUnion n stk a b = .ok r → r.PrintableE := by
+  intro n
+  induction n with
+  | zero => intro stk a b r _ _ _ _ h; rw [mUnion.eq_def] at h; cases h
+  | succ n ih =>
+    intro stk a b r ha hb pa pb h
+    have hfin : ∀ x, x ∈ [a, b] → M.Good G x := by
+      intro x hx; simp at hx; rcases hx with rfl | rfl <;> assumption
+    have hfinp : ∀ x, x ∈ [a, b] → (M.toSyn x).isSome = true := by
+      intro x hx; simp at hx; rcases hx with rfl | rfl <;> assumption
+    rw [mUnion.eq_def] at h
+    simp only at h
+    cases a with
+    | any => simp [M.toSyn] at pa
+    | empty => simp [M.toSyn] at pa
+    | leaf la =>
+      cases b with
+      | leaf lb =>
+        simp only at h
+        obtain ⟨o, h1, h2⟩ := bind_ok.1 h
+        cases o with
+        | some x =>
+          rw [pure_ok] at h2; subst h2
+          have hs := mergeLeaves_shape la lb false x h1
+          have hgx := (S.merge la lb false x (by simpa using ha) (by simpa using hb) h1).1
+          cases x with
+          | any => exact Or.inl rfl
+          | empty => exact Or.inr (Or.inl rfl)
+          | leaf l => exact Or.inr (Or.inr (by simpa [M.toSyn, Leaf.Printable] using hP l (by simpa using hgx)))
+          | multi _ => simp [M.isLitE] at hs
+          | union _ => simp [M.isLitE] at hs
+        | none =>
+          rw [pure_ok] at h2; subst h2
+          exact Or.inr (Or.inr (mkUnion_printable (by simp) hfinp))
+      | any => simp [M.toSyn] at pb
+      | empty => simp [M.toSyn] at pb
+      | multi _ => exact ih stk _ _ r hb ha pb pa h
+      | union _ => exact ih stk _ _ r hb ha pb pa h
+    | multi ms => exact unionF_printable S hP (by simp) hfin hfinp h
+    | union ms => exact unionF_printable S hP (by simp) hfin hfinp h
+
 end Poetry.Marker
